@@ -120,10 +120,10 @@ def run(c, focus=None):
         return True
     cases = [x for x in gen.corpus() if sel(x[0])]
     if c.tier == "quick":
-        cases += [x for x in gen.quick_cases(c.rng) if sel(x[0])]
+        cases += [x for x in gen.quick_cases(c.rng, 20000, 20000) if sel(x[0])]
         _run_batch(c, cases, har, drv, okd)
     else:
-        cases += [x for x in gen.quick_cases(c.rng, 20000, 30000) if sel(x[0])]
+        cases += [x for x in gen.quick_cases(c.rng, 40000, 60000) if sel(x[0])]
         _run_batch(c, cases, har, drv, okd)
         for batch in gen.thorough_batches(c.rng, focus):
             _run_batch(c, batch, har, drv, okd)
